@@ -2,7 +2,7 @@
    (Model/{Base,Engine,Api}.v); each closed by [exact]. *)
 From stdpp Require Import base list option numbers.
 From Incr.Model Require Import Base Live Engine Api.
-From Incr.Proofs Require Import Pres FrameStatus.
+From Incr.Proofs Require Import Pres FrameStatus FrameRead Reads Poisoned.
 
 (* whatever makes stabilise not return normally (a user function panicking at any invocation, an
    internal panic, even running out of fuel), the state it leaves behind is not NotStabilising *)
@@ -43,7 +43,45 @@ Example C13_nonvacuous :
      (Panic PNestedStabilise, Stabilising)].
 Proof. vm_compute. reflexivity. Qed.
 
+(* once a stabilisation has failed no read moves any more: whatever the program does next — a further
+   stabilise included — every observer that the program does not itself disallow or drop keeps returning
+   exactly what it returned right after the failure.  When the panic came from an update handler the
+   status is RunningOnUpdateHandlers, the propagation phase had finished, and what is returned are the
+   fully propagated values (the example below); when it came from a node function the previous theorem
+   says every read is refused.  Either way no later read can expose a mixture.  (The expert API's
+   dependency surgery is left out, as in C07.) *)
+Theorem C13_reads_frozen_after_failure :
+  forall fuel ops st s o ob,
+    st_status s <> NotStabilising ->
+    Forall (fun op => expert_op op = false /\ op_target op <> Some o) ops ->
+    obss s !! o = Some ob -> is_Some (nodes s !! o_observing ob) ->
+    Forall (fun e => read_result e.2 o = read_result s o) (run fuel ops st s).
+Proof. exact run_poisoned_reads_frozen. Qed.
+
+(* giving up handles — observers (last clone or not), variables, node handles, the handles bind closures
+   handed out — never panics, whatever state the library is in; the only failure is a history naming a
+   handle that was never created, which the DSL reports as a model gap *)
+Theorem C13_dropping_handles_never_panics :
+  forall fuel st o s, is_drop_op o = true -> no_real_panic (step fuel st o s).1.
+Proof. exact drops_never_panic. Qed.
+
+(* non-vacuity: a handler that panics leaves the fully propagated value readable, for good *)
+Example C13_nonvacuous_handler :
+  let h := [OpVar 1; OpMap 2 [] [0%nat]; OpObserve 1; OpSubscribe 0 (HFn 0 [EPanic]); OpSet 0 4; OpStabilise;
+            OpRead 0; OpSet 0 9; OpStabilise; OpRead 0; OpDropObs 0; OpDropVar 0; OpDropNode 1] in
+  (fun e => (e.1.1, st_status e.2)) <$> drop 5 (run_history 100 128 true h)
+  = [(Panic PInjected, RunningOnUpdateHandlers);
+     (Ok (OutRead (inl (VInt 8))), RunningOnUpdateHandlers);
+     (Ok OutUnit, RunningOnUpdateHandlers);
+     (Panic PNestedStabilise, RunningOnUpdateHandlers);
+     (Ok (OutRead (inl (VInt 8))), RunningOnUpdateHandlers);
+     (Ok OutUnit, RunningOnUpdateHandlers); (Ok OutUnit, RunningOnUpdateHandlers);
+     (Ok OutUnit, RunningOnUpdateHandlers)].
+Proof. vm_compute. reflexivity. Qed.
+
 Print Assumptions C13_failed_stabilise_poisons.
 Print Assumptions C13_poisoned_state_refuses_stabilise.
 Print Assumptions C13_poison_is_permanent.
 Print Assumptions C13_no_read_of_partial_state.
+Print Assumptions C13_reads_frozen_after_failure.
+Print Assumptions C13_dropping_handles_never_panics.
